@@ -300,3 +300,81 @@ silent("c08-max-reversed-operands", "C08",
        (VEST, "	startTime := lockEnd\n	if lockEnd.Before(ctx.BlockTime()) {\n		startTime = ctx.BlockTime()\n	}", "	startTime := ctx.BlockTime()\n	if !lockEnd.Before(ctx.BlockTime()) {\n		startTime = lockEnd\n	}"))
 silent("c08-params-renamed", "C08",
        (VEST, "func (k Keeper) newVestingAccount(ctx sdk.Context, toAddress sdk.AccAddress, amount math.Int, free sdk.Dec,\n	lockEnd time.Time,\n	vestingEnd time.Time) error {", "func (k Keeper) newVestingAccount(ctx sdk.Context, toAddress sdk.AccAddress, amount math.Int, freeFraction sdk.Dec,\n	lockEnd time.Time,\n	vestingEnd time.Time) error {\n	free := freeFraction"))
+
+# ---------------- C18 ----------------
+fire("c18-withdraw-event-total", "C18", ["C18.amount", "C18.guard"],
+     (VEST, "		if withdrawable.IsPositive() {\n			events = append(events, types.WithdrawAvailable{\n				Owner:           owner,\n				VestingPoolName: vestingPool.Name,\n				Amount:          withdrawable.String() + denom,",
+      "		if toWithdraw.IsPositive() {\n			events = append(events, types.WithdrawAvailable{\n				Owner:           owner,\n				VestingPoolName: vestingPool.Name,\n				Amount:          toWithdraw.String() + denom,"))
+fire("c18-withdraw-event-unguarded", "C18", ["C18.guard"],
+     (VEST, "		if withdrawable.IsPositive() {\n			events = append(events", "		if !withdrawable.IsNegative() {\n			events = append(events"))
+fire("c18-mint-event-constant", "C18", ["C18.amount"],
+     ("x/cfeminter/abci.go", "		Amount:      amount.String(),", "		Amount:      k.GetMinterState(ctx).AmountMinted.String(),"))
+fire("c18-distribution-event-inflow", "C18", ["C18.amount"],
+     (DISTR, "				Destination:    &share.Destination,\n				Amount:         calculatedShare,", "				Destination:    &share.Destination,\n				Amount:         coinsToDistributeDec,"))
+fire("c18-burn-event-default-share", "C18", ["C18.amount"],
+     (DISTR, "				Sources:        subDistributor.Sources,\n				Amount:         calculatedShare,\n			}\n		}\n	}\n\n	accountDefault", "				Sources:        subDistributor.Sources,\n				Amount:         defaultShare,\n			}\n		}\n	}\n\n	accountDefault"))
+fire("c18-send-event-other-amount", "C18", ["C18.amount"],
+     (VEST, "			Amount:          amount.String() + k.Denom(ctx),", "			Amount:          available.String() + k.Denom(ctx),"))
+fire("c18-send-event-on-failure", "C18", ["C18.guard"],
+     (VEST, "	if err == nil {\n		k.SetAccountVestingPools(ctx, accVestingPools)\n		k.AppendVestingAccountTrace(ctx, types.VestingAccountTrace{\n			Address:            toAddr,\n			Genesis:            false,\n			FromGenesisPool:    vestingPool.GenesisPool,\n			FromGenesisAccount: false,\n		})\n",
+      "	if err == nil {\n		k.SetAccountVestingPools(ctx, accVestingPools)\n		k.AppendVestingAccountTrace(ctx, types.VestingAccountTrace{\n			Address:            toAddr,\n			Genesis:            false,\n			FromGenesisPool:    vestingPool.GenesisPool,\n			FromGenesisAccount: false,\n		})\n	}\n	{\n"))
+fire("c18-pool-event-other-amount", "C18", ["C18.amount"],
+     ("x/cfevesting/keeper/msg_server_create_vesting_pool.go", "		Amount:      msg.Amount.String() + denom,", "		Amount:      msg.Amount.AddRaw(1).String() + denom,"))
+silent("c18-mint-event-local", "C18",
+       ("x/cfeminter/abci.go", "		Amount:      amount.String(),", "		Amount:      amount.String() + \"\","))
+
+# ---------------- C17 ----------------
+SUMM = "x/cfevesting/keeper/grpc_query_vestings_summary.go"
+fire("c17-pool-flag-false", "C17", ["C17.pool"],
+     (VEST, "			FromGenesisPool:    vestingPool.GenesisPool,", "			FromGenesisPool:    false,"))
+fire("c17-pool-trace-owner", "C17", ["C17.pool"],
+     (VEST, "			Address:            toAddr,\n			Genesis:            false,\n			FromGenesisPool:    vestingPool.GenesisPool,", "			Address:            owner,\n			Genesis:            false,\n			FromGenesisPool:    vestingPool.GenesisPool,"))
+fire("c17-split-drop-genesis", "C17", ["C17.split"],
+     (SPLIT, "			FromGenesisAccount: vAcc.Genesis || vAcc.FromGenesisAccount,", "			FromGenesisAccount: vAcc.FromGenesisAccount,"))
+fire("c17-split-and", "C17", ["C17.split"],
+     (SPLIT, "			FromGenesisAccount: vAcc.Genesis || vAcc.FromGenesisAccount,", "			FromGenesisAccount: vAcc.Genesis && vAcc.FromGenesisAccount,"))
+fire("c17-split-pool-flag-lost", "C17", ["C17.split"],
+     (SPLIT, "			FromGenesisPool:    vAcc.FromGenesisPool,", "			FromGenesisPool:    vAcc.Genesis,"))
+fire("c17-split-always-append", "C17", ["C17.split"],
+     (SPLIT, "	if found {\n		k.AppendVestingAccountTrace", "	if found || vAcc.Id == 0 {\n		k.AppendVestingAccountTrace"))
+fire("c17-extra-trace-writer", "C17", ["C17.only"],
+     (VEST, "	k.Logger(ctx).Debug(\"append vesting account\", \"address\", acc.Address)\n	return nil", "	k.AppendVestingAccountTrace(ctx, types.VestingAccountTrace{Address: acc.Address, Genesis: true})\n	return nil"))
+fire("c17-summary-delegated-reversed", "C17", ["C17.summary"],
+     (SUMM, "		DelegatedVestingAmount:  allVestingInAccounts.Sub(allLockedNotDelegated),", "		DelegatedVestingAmount:  allLockedNotDelegated.Sub(allVestingInAccounts),"))
+fire("c17-summary-all-accounts-only", "C17", ["C17.summary"],
+     (SUMM, "		VestingAllAmount:        allVestingInAccounts.Add(vestingInPoolsAmount),", "		VestingAllAmount:        allVestingInAccounts,"))
+fire("c17-summary-genesis-filter-partial", "C17", ["C17.summary"],
+     ("x/cfevesting/types/vesting_account.go", "	return v.Genesis || v.FromGenesisAccount || v.FromGenesisPool", "	return v.Genesis || v.FromGenesisAccount"))
+fire("c17-summary-locked-for-vesting", "C17", ["C17.summary"],
+     (SUMM, "			allVestingInAccounts = allVestingInAccounts.Add(vestingCoins.AmountOf(denom))", "			_ = vestingCoins\n			allVestingInAccounts = allVestingInAccounts.Add(lockedCoins.AmountOf(denom))"))
+fire("c17-genesis-amount-all-pools", "C17", ["C17.summary"],
+     ("x/cfevesting/types/account_vesting_pool.go", "			if vp.GenesisPool {\n				result = result.Add(vp.GetCurrentlyLocked())\n			}", "			result = result.Add(vp.GetCurrentlyLocked())"))
+silent("c17-split-or-swapped", "C17",
+       (SPLIT, "			FromGenesisAccount: vAcc.Genesis || vAcc.FromGenesisAccount,", "			FromGenesisAccount: vAcc.FromGenesisAccount || vAcc.Genesis,"))
+silent("c17-summary-add-swapped", "C17",
+       (SUMM, "		VestingAllAmount:        allVestingInAccounts.Add(vestingInPoolsAmount),", "		VestingAllAmount:        vestingInPoolsAmount.Add(allVestingInAccounts),"))
+
+# ---------------- C07 ----------------
+UNLOCK = "x/cfevesting/keeper/vesting_account_split.go"
+fire("c07-recipient-start-now", "C07", ["C07.recipient"],
+     (SPLIT, "	startTime := ctx.BlockTime().Unix()\n	if vestingAcc.StartTime > startTime {\n		startTime = vestingAcc.StartTime\n	}", "	startTime := ctx.BlockTime().Unix()"))
+fire("c07-recipient-end-shifted", "C07", ["C07.recipient"],
+     (SPLIT, "k.newContinuousVestingAccount(ctx, toAddress, amount, startTime, vestingAcc.EndTime)", "k.newContinuousVestingAccount(ctx, toAddress, amount, startTime, ctx.BlockTime().Unix()+31536000)"))
+fire("c07-recipient-start-min", "C07", ["C07.recipient"],
+     (SPLIT, "	if vestingAcc.StartTime > startTime {", "	if vestingAcc.StartTime < startTime {"))
+fire("c07-transfer-double", "C07", ["C07.transfer"],
+     (SPLIT, "k.bank.SendCoins(ctx, from, toAddress, amount)", "k.bank.SendCoins(ctx, from, toAddress, amount.Add(amount...))"))
+fire("c07-recipient-vests-other", "C07", ["C07.recipient"],
+     (SPLIT, "k.newContinuousVestingAccount(ctx, toAddress, amount, startTime, vestingAcc.EndTime)", "k.newContinuousVestingAccount(ctx, toAddress, vestingAcc.OriginalVesting, startTime, vestingAcc.EndTime)"))
+fire("c07-guard-deleted", "C07", ["C07.guard"],
+     (UNLOCK, "	if !amountToUnlock.IsAllLTE(lockedCoins) {", "	if amountToUnlock.IsAnyNegative() {"))
+fire("c07-guard-vesting-instead-of-locked", "C07", ["C07.guard"],
+     (UNLOCK, "	lockedCoins := vestingAcc.LockedCoins(ctx.BlockTime())", "	lockedCoins := vestingAcc.GetVestingCoins(ctx.BlockTime())"))
+fire("c07-writes-endtime", "C07", ["C07.writes"],
+     (UNLOCK, "	k.account.SetAccount(ctx, vestingAcc)\n	return vestingAcc, nil", "	vestingAcc.EndTime = vestingAcc.EndTime - 1\n	k.account.SetAccount(ctx, vestingAcc)\n	return vestingAcc, nil"))
+fire("c07-move-all-balance", "C07", ["C07.move"],
+     ("x/cfevesting/keeper/msg_server_move_available_vesting.go", "	amount := k.bank.LockedCoins(ctx, fromAccAddress)", "	amount := k.bank.GetAllBalances(ctx, fromAccAddress)"))
+fire("c07-move-locked-of-recipient", "C07", ["C07.move"],
+     ("x/cfevesting/keeper/msg_server_move_available_vesting_by_denoms.go", "	locked := k.bank.LockedCoins(ctx, fromAccAddress)", "	locked := k.bank.LockedCoins(ctx, toAccAddress)"))
+silent("c07-max-reversed", "C07",
+       (SPLIT, "	startTime := ctx.BlockTime().Unix()\n	if vestingAcc.StartTime > startTime {\n		startTime = vestingAcc.StartTime\n	}", "	startTime := vestingAcc.StartTime\n	if now := ctx.BlockTime().Unix(); now >= startTime {\n		startTime = now\n	}"))
